@@ -620,12 +620,33 @@ func init() {
 				Step: c20Step, SeedStep: true,
 				Required: []string{"query.unbondings.nonempty", "state.bucket_with_2plus_entries"},
 			}
+			// a validator registered in x/staking under the upper-case spelling of its operator address (MsgCreateValidator keeps
+			// the message text; bech32 is case-insensitive): V3 here. Every byte-keyed index agrees, every string comparison must too
+			ucfg := c07Config()
+			ucfg.UpperCaseValidator = true
+			upper := &engine.Scenario{
+				Property: "C20", Name: "c20-upper-case-operator", Cfg: ucfg, Stores: world.ModuleStores,
+				Seeds:      [][]world.Op{{opDel(0, 3, "aaa", "1000"), opDel(0, 0, "aaa", "1000"), opDel(1, 3, "aaa", "500"), opBlock(1)}},
+				ClassNames: classNames, Budgets: tierPick(tier, []int{3, 1, 0, 2, 0}, []int{4, 1, 0, 3, 0}), MaxDepth: tierPick(tier, 5, 7),
+				NewRef: func(w *world.World, root *engine.Node) engine.Ref { return newPendRef() },
+				Ops: func(n *engine.Node) []world.Op {
+					return []world.Op{
+						{K: world.KUndelegate, D: 0, V: 3, Denom: "aaa", Amt: "300", Class: ClsUser},
+						{K: world.KUndelegate, D: 0, V: 0, Denom: "aaa", Amt: "200", Class: ClsUser},
+						{K: world.KRedelegate, D: 1, V: 3, V2: 0, Denom: "aaa", Amt: "100", Class: ClsUser},
+						{K: world.KSlash, V: 3, F: "0.5", Class: ClsSlash},
+						{K: world.KBlock, Dt: int64(U), Class: ClsBlock}, {K: world.KBlock, Dt: int64(3 * U), Class: ClsBlock},
+					}
+				},
+				Step: c20Step, SeedStep: true,
+				Required: []string{"query.unbondings.nonempty", "state.after_slash"},
+			}
 			unionFull := unionFullScenario("C20", "c20-union-full-pipeline", tier, c20Step, func(w *world.World, root *engine.Node) engine.Ref { return newPendRef() }, tierPick(tier, 3, 5))
 			unionFull.Required = []string{"query.unbondings.nonempty", "probe.undelegate_balance"}
 			if tier == "thorough" {
-				return []*engine.Scenario{magnitude, suffix, unionFull, removed([]int{3, 0, 1, 5, 0}, 9), mk("c20-queries", []int{4, 1, 1, 2, 0}, 7)}
+				return []*engine.Scenario{magnitude, suffix, upper, unionFull, removed([]int{3, 0, 1, 5, 0}, 9), mk("c20-queries", []int{4, 1, 1, 2, 0}, 7)}
 			}
-			return []*engine.Scenario{magnitude, suffix, unionFull, removed([]int{2, 0, 1, 4, 0}, 7), mk("c20-queries", []int{3, 1, 1, 2, 0}, 4)}
+			return []*engine.Scenario{magnitude, suffix, upper, unionFull, removed([]int{2, 0, 1, 4, 0}, 7), mk("c20-queries", []int{3, 1, 1, 2, 0}, 4)}
 		},
 		Assumptions: []string{
 			"reference enumeration: the list-based model of pending unbondings/redelegations (the one C02/C07/C15 validate against the store) and a raw decode of the delegation records",
